@@ -590,12 +590,20 @@ class Lifecycle(BaseEngine):
                 # a second, unrelated port is used in between; it must behave as if it were alone
                 by_n += 1
                 bm = make_msg('note_on', 9, by_n % 128, by_n)
+                clock.arm()
+                c0 = clock.now
                 try:
                     by.send(bm)
                     back = by.poll()
                     nothing = by.poll()
+                except SimAbort:
+                    raise Violation(f'nonblocking-waited@{kind}.bystander', 'poll() on an unrelated EchoPort waited '
+                                                                            'forever')
                 except Exception as e:
                     raise Violation(f'bystander-raised@{kind}', f'an unrelated EchoPort used in between raised {e!r}')
+                if clock.now != c0:
+                    raise Violation(f'nonblocking-waited@{kind}.bystander', 'send/poll on an unrelated EchoPort advanced '
+                                                                            'the clock')
                 if not (back == bm) or nothing is not None:
                     raise Violation(f'bystander-disturbed@{kind}', f'an unrelated EchoPort was sent {bm!r} and handed out '
                                                                    f'{back!r} then {nothing!r}')
